@@ -703,3 +703,50 @@ func ruleDEEPLACOPY(c *Ctx) {
 		c.add(rule, "count:", token.NoPos, CountDropped, true, "only %d deep-lookahead copies found (parse and lookahead of the lalr(2) test parser confirmed by hand)", n)
 	}
 }
+
+// SIBLING(lalr-scan): a lookahead row is a list of (terminal, action) pairs closed by a negative
+// terminal. Every reader - the generated `lalr()` helper and the scans in package lalr
+// (Optimize, minimize, resolveWithLookahead, debug output) - must go on while the terminal is
+// >= 0: terminal 0 is the end-of-input token, so a scan that stops at `> 0` treats EOI's entry as
+// the terminator and hands EOI's action to every terminal listed after it.
+func ruleLALRSCAN(c *Ctx) {
+	const rule = "SIBLING(lalr-scan)"
+	n := 0
+	pkgs := append([]string{"lalr"}, parserPkgs...)
+	for _, rel := range pkgs {
+		for _, f := range c.SrcFuncs(rel) {
+			loops := naturalLoops(f)
+			ord := map[string]int{}
+			for _, lp := range loops {
+				ifi, ok := lp.Header.Instrs[len(lp.Header.Instrs)-1].(*ssa.If)
+				if !ok {
+					continue
+				}
+				l, op, r, ok := cmpNorm(ifi.Cond, true)
+				if !ok {
+					continue
+				}
+				var elem string
+				switch {
+				case l == "0" && (strings.Contains(r, "tmLalr[") || strings.Contains(r, ".Lalr[")):
+					elem = r
+				case r == "0" && (strings.Contains(l, "tmLalr[") || strings.Contains(l, ".Lalr[")):
+					elem = l
+				default:
+					continue
+				}
+				n++
+				key := ordKey(ord, ssaFuncKey(f)+":scan")
+				if l == "0" && op == "<=" {
+					c.Ok(rule, key, ifi.Cond.Pos(), "the scan of a lookahead row continues while the terminal is >= 0")
+				} else {
+					c.Bad(rule, key, ifi.Cond.Pos(), "the scan of a lookahead row continues under %s %s %s instead of terminal >= 0: terminal 0 (end of input) ends the scan and its action is used for every terminal listed after it", normalizePhi(l), op, normalizePhi(r))
+				}
+				_ = elem
+			}
+		}
+	}
+	if n < 6 {
+		c.add(rule, "count:", token.NoPos, CountDropped, true, "only %d scans of lookahead rows found (4 in package lalr and the lalr() helpers of the generated parsers confirmed by hand)", n)
+	}
+}
